@@ -44,11 +44,16 @@ def parse_rf(rf):
 def simple_strategy(ring, rf, token):
     """SimpleStrategy.calculateNaturalReplicas: walk the ring, take distinct endpoints until
     rf.allReplicas are found.  Returns (all_replicas_in_order, number_of_full_replicas)."""
+    if not ring:
+        return [], 0
+    return simple_strategy_walk(ring_walk(ring, token), rf)
+
+
+def simple_strategy_walk(walk, rf):
+    """same, given the ring walk (owners of the ring tokens starting at the key's range)"""
     rf_all, rf_full = parse_rf(rf)
     out = []
-    if not ring:
-        return out, 0
-    for ep in ring_walk(ring, token):
+    for ep in walk:
         if len(out) >= rf_all:
             break
         if ep not in out:
@@ -100,10 +105,15 @@ def network_topology_strategy(ring, locs, dc_rf, token, detail=False):
     """NetworkTopologyStrategy.calculateNaturalReplicas (Cassandra 4.x).
     dc_rf: dict dc -> rf ('N', N or 'N/T').  Returns the ordered replica list (all replicas,
     transient ones included); with detail=True returns (all, full_replicas_set)."""
-    replicas = []
     if not ring:
-        return (replicas, set()) if detail else replicas
-    hosts = set(h for _, h in ring)
+        return ([], set()) if detail else []
+    return network_topology_strategy_walk(ring_walk(ring, token), locs, dc_rf, detail)
+
+
+def network_topology_strategy_walk(walk, locs, dc_rf, detail=False):
+    """same, given the ring walk (owners of the ring tokens starting at the key's range)"""
+    replicas = []
+    hosts = set(walk)
     dc_nodes = {}
     dc_racks = {}
     for h in hosts:
@@ -121,7 +131,7 @@ def network_topology_strategy(ring, locs, dc_rf, token, detail=False):
         dcs[dc] = _DatacenterEndpoints(rf_all, rf_all - rf_full, len(dc_racks[dc]), node_count,
                                        replicas, seen_racks)
         to_fill += 1
-    for ep in ring_walk(ring, token):
+    for ep in walk:
         if to_fill <= 0:
             break
         loc = locs[ep]
@@ -180,7 +190,7 @@ def network_topology_strategy_legacy(ring, locs, dc_rf, token):
     return replicas
 
 
-def selftest(full=False):
+def selftest(deep=False):
     # --- fixed examples (the expectations of /repo/tests/unit/test_metadata.py StrategiesTest, and
     #     hand-derived ones)
     ring = [(0, 'a'), (100, 'b'), (200, 'c')]
@@ -228,7 +238,7 @@ def selftest(full=False):
     for nh in (1, 2, 3, 4):
         for assign in itertools.product(loc_choices, repeat=nh):
             locs = dict(zip(hosts, assign))
-            for extra in range(0, 2 if (full or nh <= 3) else 1):
+            for extra in range(0, 2 if (deep or nh <= 3) else 1):
                 owners_sets = itertools.product(hosts[:nh], repeat=nh + extra)
                 for owners in owners_sets:
                     if set(owners) != set(hosts[:nh]):
@@ -248,4 +258,4 @@ def selftest(full=False):
 
 if __name__ == '__main__':
     import sys
-    print('placement selftest ok, %d NTS cross-comparisons' % selftest(full='--full' in sys.argv))
+    print('placement selftest ok, %d NTS cross-comparisons' % selftest(deep="--full" in sys.argv))
